@@ -746,10 +746,11 @@ func (b *broker) trySend(sess *wamp.Session, msg wamp.Message) {
 }
 
 func prepareEvent(pub *wamp.Session, msg *wamp.Publish, pubID wamp.ID, sub *subscription, sendTopic, disclose bool, eventDetails wamp.Dict, subscriber *wamp.Session) *wamp.Event { //nolint:lll
-	details := eventDetails
-	if details == nil {
-		details = wamp.Dict{}
-	}
+	// Every event gets its own details. The topic and publisher identity
+	// written below depend on the receiving subscription and subscriber, so
+	// the dict must not be shared between the events of a publication.
+	details := make(wamp.Dict, len(eventDetails)+4)
+	maps.Copy(details, eventDetails)
 
 	event := &wamp.Event{
 		Publication:  pubID,
